@@ -87,3 +87,10 @@ Definition tu_ctor (idx x y z : N) : outcome bytes :=
   y' <- (if Nat.leb 2 n then checked my y else Ok 0) ;;
   z' <- (if Nat.leb 3 n then checked mz z else Ok 0) ;;
   Ok (ctor_bytes idx x' y' z').
+
+(** test_util::{u4, u7, u14, channel, key_number, controller_number}: [try_into().expect(..)] *)
+Definition tu_scalar_max (which : N) : N :=
+  match which with
+  | 0 => 15 | 1 => 127 | 2 => 16383 | 3 => 15 | 4 => 127 | _ => 127
+  end.
+Definition tu_scalar (which v : N) : outcome N := checked (tu_scalar_max which) v.
